@@ -174,11 +174,7 @@ func (e *Engine) fingerprint(st *State) uint64 {
 			h = mix(h, e.hashValue(th.Panic.Val))
 		}
 	}
-	var sum uint64
-	for id, o := range st.Heap {
-		sum += mix(uint64(id)*0x9e3779b97f4a7c15, e.hashObject(o))
-	}
-	h = mix(h, sum)
+	h = mix(h, e.heapSum(st))
 	for _, q := range st.Quiesce {
 		h = mix(h, e.hashValue(q))
 	}
@@ -189,4 +185,29 @@ func (e *Engine) fingerprint(st *State) uint64 {
 		h = mix(h, uint64(st.Clock.ID))
 	}
 	return h
+}
+
+func (e *Engine) objTerm(id ObjID, o *Object) uint64 {
+	return mix(uint64(id)*0x9e3779b97f4a7c15, e.hashObject(o))
+}
+
+// heapSum is an order-independent hash of the heap: the (cached) sum of the shared base layer,
+// corrected for the entries the state's overlay shadows or adds.
+func (e *Engine) heapSum(st *State) uint64 {
+	b := st.base
+	if !b.summed {
+		var s uint64
+		for id, o := range b.m {
+			s += e.objTerm(id, o)
+		}
+		b.sum, b.summed = s, true
+	}
+	sum := b.sum
+	for id, o := range st.over {
+		if bo, ok := b.m[id]; ok {
+			sum -= e.objTerm(id, bo)
+		}
+		sum += e.objTerm(id, o)
+	}
+	return sum
 }
